@@ -129,6 +129,8 @@ func c13Specs(tier string) []*Spec {
 		add("nofast/3keys/d5", Cfg{Fast: false}, k3, 5, 2, 2)
 		add("longkey/d4", defaultCfg, [][]byte{[]byte("a"), long, {0xff, 0x00}}, 4, 1, 2)
 		add("iv7/d4", Cfg{Fast: true, IVSet: true, IV: 7}, k3, 4, 1, 2)
+		add("iv63/d4", Cfg{Fast: true, IVSet: true, IV: 63}, k3, 4, 1, 2) // varint boundary of the version fields
+		add("iv8191/d4", Cfg{Fast: false, IVSet: true, IV: 8191}, k3, 4, 1, 2)
 		addB("boundary-lengths/d3", 3, 3)
 		return specs
 	}
@@ -136,6 +138,8 @@ func c13Specs(tier string) []*Spec {
 	add("nofast/3keys/d6", Cfg{Fast: false}, k3, 6, 2, 8)
 	add("longkey/d5", defaultCfg, [][]byte{[]byte("a"), long, {0xff, 0x00}}, 5, 2, 4)
 	add("iv7/d5", Cfg{Fast: true, IVSet: true, IV: 7}, k3, 5, 2, 4)
+	add("iv63/d5", Cfg{Fast: true, IVSet: true, IV: 63}, k3, 5, 2, 4)
+	add("iv8191/d5", Cfg{Fast: false, IVSet: true, IV: 8191}, k3, 5, 2, 4)
 	add("5keys/d6", defaultCfg, bs("a", "b", "c", "d", "e"), 6, 0, 8)
 	addB("boundary-lengths/d4", 4, 6)
 	return specs
